@@ -72,6 +72,11 @@ def run(ctx):
         d = G5.document(rng, with_files=(True if i % 3 == 0 else False if i % 3 == 1 else None))
         docs.append((d, G5.render(rng, d)))
     G5.FIRST_MARKER = 0.0
+    G5.TAB_TEXT = True
+    for i in range(ctx.n(400, 4000)):
+        d = G5.document(rng)
+        docs.append((d, G5.render(rng, d)))
+    G5.TAB_TEXT = False
     fails = ctx.prop('prop:dep5', docs, p_doc)
     fails += [((f[0][1]), f[1] + ' (after parsing a text that takes a recovery path: state kept across calls?)')
               for f in ctx.prop('prop:dep5-after-recovery', list(enumerate(docs[:ctx.n(600, 6000)])), p_doc_after_recovery)]
